@@ -181,6 +181,12 @@ func runC11(e *Engine, r *Report) {
 			r.check(strings.Contains(fname(p), "closeWorker") || strings.Contains(fname(p), "processCloses") || strings.Contains(fname(p), "closeWorkerMain"),
 				"WMC-close-chain", "node.destroy called in "+fname(p), e.ipos(s),
 				"node.destroy runs on the close worker", "node.destroy is called outside the close worker")
+			// at most once: the worker tests the destroyed flag when it executes the request
+			// (a test at enqueue time does not exclude a second request queued behind a running one)
+			if dd := r.need("(*dragonboat.node).destroyed"); dd != nil {
+				r.guard("GD-destroy-once", "node.destroy called in "+fname(s.Parent()), s.(ssa.Instruction),
+					reqBool("the node is not destroyed yet (tested by the executing worker)", e.callV(dd), false))
+			}
 		}
 	}
 	// setCloseReady only when Offloaded() returned true
